@@ -11,6 +11,13 @@ def run(tier):
     classes = en.cls("CONSUME") | (en.cls("REQ") if thorough else 0)
     args = ["--tier", tier, "--dev", "2" if thorough else "1", "--batch", "1", "--classes", str(classes),
             "--deadline", str(1200 if thorough else 120)]
+    if thorough:
+        # program families: all ordered trees with <= 4 states and the spine family (kind chains of depth 3 / 4), d = 1, single requests
+        fam = en.systematic(4) + en.spines()
+        for p in fam:
+            p.args = ["--dev", "1", "--batch", "1", "--deadline", "90"]
+        progs += fam
+        chk.coverage["program_families"] = {"programs": len(fam), "rule": "all ordered trees with <= 4 states (every region kind headed; composite/resumable/orthogonal also headless) + spine family (kind chains of depth 3 in two orientations, depth 4 over C/O/R)"}
     res = en.run_all(chk, "C05", progs, args, timeout=(2000 if thorough else 300))
     en.aggregate(chk, res, "C05")
     chk.coverage["explanation"] = (
